@@ -172,6 +172,10 @@ def fit_frag(specs):
         ss = s["sess"]
         if ss.get("qtype") in ("CNAME", "A") and (ss.get("fragsize") or 0) > 100:
             ss["fragsize"] = None
+        # -T PRIVATE never passes the client's EDNS0 test (it asks for codec T, which the server refuses for
+        # PRIVATE), so its queries carry no OPT record and a relay limits such answers to 512 bytes
+        if ss.get("qtype") == "PRIVATE" and (ss.get("fragsize") or 0) > 400 and s.get("relay"):
+            ss["fragsize"] = None
     return specs
 
 
